@@ -5,6 +5,10 @@ import Enc.Props.C07
 import Enc.Props.C12
 import Enc.Props.C16
 import Enc.Props.C18
+import Enc.Props.C04
+import Enc.Props.C08
+import Enc.Props.C13
+import Enc.Driver.Thrift
 import Enc.Driver.Iso
 import Enc.Driver.Ascii
 import Enc.Driver.Proto
